@@ -152,12 +152,21 @@ def m_char_boundary(mir, res, tier):
                 continue
             meth = m.group(2) or m.group(3)
             fname = mir.short(f["path"])
-            cands = [g for g in facts.fns if g["name"] == fname and facts.rel(g["file"]) == c["file"]]
+            # (the syntax-tree facts are cached by tree content and may carry the path of another copy of the same tree: compare by suffix)
+            cands = [g for g in facts.fns if g["name"] == fname and (g["file"] == c["file"] or g["file"].endswith("/" + c["file"]))]
             site = None
+            # the k-th resolved call of this method in the function is the k-th call of that name in its syntax tree (a call that spans
+            # several lines is not reported on the same line by the two extractors)
+            same = sorted([x for x in f["calls"] if x["callee"] == c["callee"]], key=lambda x: (x["line"], x.get("col", 0)))
+            kth = same.index(c)
             for g in cands:
-                for node, env, doms in scoped(g):
-                    if node.get("k") == "mcall" and node["method"] == meth and str(node.get("loc", "")).split(":")[0] == str(c["line"]):
-                        site = (g, node, env, doms)
+                nodes = [(node, env, doms) for node, env, doms in scoped(g) if node.get("k") == "mcall" and node["method"] == meth]
+                nodes.sort(key=lambda t: tuple(int(v) for v in str(t[0].get("loc", "0:0")).split(":")))
+                exact = [t for t in nodes if str(t[0].get("loc", "")).split(":")[0] == str(c["line"])]
+                if len(exact) == 1:
+                    site = (g,) + exact[0]
+                elif len(nodes) == len(same):
+                    site = (g,) + nodes[kth]
             n += 1
             if site is None:
                 res.fail("M-CHAR-BOUNDARY:%s:%s:unlocated" % (fname, meth), "%s:%s" % (c["file"], c["line"]), "cannot find the %s call of %s in the syntax tree" % (meth, fname))
